@@ -79,6 +79,9 @@ pub fn run(prop: &str, tier: &str, seed: u64, outfile: &str) {
         "C08" => gen_c08(&mut out, &mut rng, thorough),
         "C11" => gen_c11(&mut out, &mut rng, thorough),
         "C16" => gen_c16(&mut out, &mut rng, thorough),
+        "C12" => gen_c12(&mut out, &mut rng, thorough),
+        "C18" => gen_c18(&mut out, &mut rng, thorough),
+        "C17" => crate::wasmops::gen(&mut out, &mut rng, thorough),
         _ => {
             eprintln!("unknown property {}", prop);
             std::process::exit(2);
@@ -718,5 +721,110 @@ fn gen_c16(out: &mut Out, rng: &mut Rng, thorough: bool) {
             let o = Opts { ecl: Some(e), mode: Some(md), version: Some(v), mask };
             out.job(move || term_line(&inp, o));
         }
+    }
+}
+
+// ---------------------------------------------------------------------------------------------
+// C12 / C18: real SvgBuilder on real symbols under generated setter histories.
+use crate::svgops::{self, Op};
+
+pub fn svg_line(input: &[u8], o: Opts, ops: &[Op]) -> String {
+    let r = build(input, o);
+    let head = format!(
+        "svg {} {} {} {} {} {} => ",
+        hex(input), opt(o.ecl), opt(o.mode), opt(o.version), opt(o.mask), svgops::toks(ops)
+    );
+    match &r {
+        Outcome::Ok(q) => {
+            let (q2, ops2) = (q.clone(), ops.to_vec());
+            match std::panic::catch_unwind(move || svgops::svg_of(&ops2, &q2)) {
+                Ok(s) => format!("{}ok {} {} {}", head, q.size, matrix_hex(q), hex(s.as_bytes())),
+                Err(e) => format!("{}trap {}", head, panic_msg(e)),
+            }
+        }
+        _ => format!("{}{}", head, outcome_short(&r)),
+    }
+}
+
+fn small_symbol(rng: &mut Rng, caps: &[Vec<Vec<usize>>], v: usize) -> (Vec<u8>, Opts) {
+    let e = rng.below(4);
+    let md = rng.below(3);
+    let len = rng.range(0, caps[md][e][v]);
+    (content(rng, md, len), Opts { ecl: Some(e), mode: Some(md), version: Some(v), mask: Some(rng.below(8)) })
+}
+
+fn gen_c12(out: &mut Out, rng: &mut Rng, thorough: bool) {
+    let caps = caps();
+    let n_cases = if thorough { 6000 } else { 400 };
+    for k in 0..n_cases {
+        let v = if k % 10 == 0 { rng.below(40) } else { rng.below(8) };
+        let n = 21 + 4 * v;
+        let (inp, o) = small_symbol(rng, &caps, v);
+        let mut ops = Vec::new();
+        if rng.chance(3, 4) {
+            ops.push(Op::Margin(if rng.chance(1, 8) { n } else { rng.below(n + 1) }));
+        }
+        for _ in 0..rng.below(4) {
+            if rng.chance(1, 2) {
+                ops.push(Op::Shape(rng.below(6)));
+            } else {
+                ops.push(Op::ShapeColor(rng.below(6), svgops::rand_color(rng)));
+            }
+        }
+        if rng.chance(1, 2) {
+            ops.push(Op::ModuleColor(svgops::rand_color(rng)));
+        }
+        if rng.chance(1, 2) {
+            ops.push(Op::BackgroundColor(svgops::rand_color(rng)));
+        }
+        if rng.chance(2, 3) {
+            ops.push(Op::Image((*rng.pick(svgops::IMAGES)).to_string()));
+            if rng.chance(1, 3) {
+                ops.push(Op::ImageBgShape(rng.below(3)));
+            }
+            if rng.chance(1, 3) {
+                ops.push(Op::ImageBgColor(svgops::rand_color(rng)));
+            }
+        }
+        // shuffle lightly: setters commute except shape order
+        if rng.chance(1, 3) && ops.len() > 1 {
+            let i = rng.below(ops.len());
+            let x = ops.remove(i);
+            ops.push(x);
+        }
+        out.job(move || svg_line(&inp, o, &ops));
+    }
+}
+
+fn gen_c18(out: &mut Out, rng: &mut Rng, thorough: bool) {
+    let caps = caps();
+    // defaults: exhaustive 40 versions x 3 shapes x margins 0..16
+    for v in 0..40usize {
+        let (inp, o) = small_symbol(rng, &caps, v);
+        for shape in 0..3usize {
+            for margin in 0..=16usize {
+                let ops = vec![Op::Margin(margin), Op::ImageBgShape(shape), Op::Image("x.png".to_string())];
+                let i2 = inp.clone();
+                out.job(move || svg_line(&i2, o, &ops));
+            }
+        }
+    }
+    // overrides: dyadic size / gap / position
+    for _ in 0..(if thorough { 20000 } else { 500 }) {
+        let v = rng.below(40);
+        let n = (21 + 4 * v) as i64;
+        let (inp, o) = small_symbol(rng, &caps, v);
+        let mut ops = vec![Op::Margin(rng.below(17)), Op::ImageBgShape(rng.below(3)), Op::Image("x.png".to_string())];
+        let which = rng.range(1, 7);
+        if which & 1 != 0 {
+            ops.push(Op::ImageSize(svgops::rand_dyadic(rng, 1, n / 2)));
+        }
+        if which & 2 != 0 {
+            ops.push(Op::ImageGap(svgops::rand_dyadic(rng, 0, 4)));
+        }
+        if which & 4 != 0 {
+            ops.push(Op::ImagePosition(svgops::rand_dyadic(rng, 0, n + 8), svgops::rand_dyadic(rng, 0, n + 8)));
+        }
+        out.job(move || svg_line(&inp, o, &ops));
     }
 }
